@@ -55,6 +55,8 @@ Res(pos, need, tr, r, v, x) ==
   [pos |-> pos, need |-> need, t |-> tr.t, n |-> tr.n, m |-> tr.m, r |-> r, v |-> v, x |-> x]
 
 SP == <<"<SP>">>
+\* An opening token directly followed by `(` could be read as the start of arithmetic: keep a blank.
+Open(tok, r) == IF r # <<>> /\ Head(r) \in {"(", "(("} THEN <<tok, " ">> ELSE <<tok>>
 
 ------------------------------------------------------------------------
 \* Arithmetic expressions
@@ -147,7 +149,7 @@ DWord(p, d) ==
     [] c = 18 ->  \* $( stmts )
          LET s == DStmts(p + 1, d - 1, "paren") IN
          Res(s.pos, Need2(nd, s.need), L1(LAMBDA u : W(<<CmdSubstNode(u, FALSE)>>), s),
-             <<"$(">> \o s.r \o <<")">>, s.v, s.x)
+             Open("$(", s.r) \o s.r \o <<")">>, s.v, s.x)
     [] c = 19 ->  \* ` stmt ` : Norm clears Backquotes.  Only a simple call inside (no nesting of `).
          Res(p + 1, nd,
              [t |-> W(<<CmdSubstNode(<<[k |-> "Stmt", Cmd |-> [k |-> "CallExpr", Args |-> <<LW("bq"), LW("arg")>>]]>>, TRUE)>>),
@@ -168,7 +170,7 @@ DWord(p, d) ==
          LET s == DStmts(p + 1, d - 1, "paren") IN
          Res(s.pos, Need2(nd, s.need),
              L1(LAMBDA u : W(<<[k |-> "ProcSubst", Op |-> "<(", Stmts |-> u]>>), s),
-             <<"<(">> \o s.r \o <<")">>, s.v \cap (BashLike \cup {"zsh"}), s.x \cup {"posix"})
+             Open("<(", s.r) \o s.r \o <<")">>, s.v \cap (BashLike \cup {"zsh"}), s.x \cup {"posix"})
     [] c = 23 -> Res(p + 1, nd, Tri(W(<<[k |-> "SglQuoted", Dollar |-> TRUE, Value |-> "a\\tb"]>>)), <<"$'a\\tb'">>,
                      NoPosix, None)
     [] c = 24 -> Res(p + 1, nd, Tri(W(<<[k |-> "DblQuoted", Dollar |-> TRUE, Parts |-> <<Lit("loc")>>]>>)), <<"$\"loc\"">>,
@@ -181,7 +183,7 @@ DWord(p, d) ==
          LET s == DStmts(p + 1, d - 1, "paren") IN
          Res(s.pos, Need2(nd, s.need),
              L1(LAMBDA u : W(<<[k |-> "DblQuoted", Parts |-> <<Lit("pre "), CmdSubstNode(u, FALSE), Lit(" post")>>]>>), s),
-             <<"\"pre $(">> \o s.r \o <<") post\"">>, s.v, s.x)
+             Open("\"pre $(", s.r) \o s.r \o <<") post\"">>, s.v, s.x)
     [] c = 28 -> Res(p + 1, nd, Tri(W(<<PE("x") @@ ("Exp" :> [k |-> "Expansion", Op |-> "@", Word |-> LW("Q")])>>)),
                      <<"${x@Q}">>, BashLike, {"posix"})
     [] c = 29 -> Res(p + 1, nd, Tri(W(<<PE("x") @@ ("Excl" :> TRUE) @@ ("Names" :> "*")>>)), <<"${!x*}">>, BashLike, {"posix"})
@@ -280,7 +282,9 @@ DCmd(p, d) ==
              b  == DStmt(a.pos, 0)
              \* `fn() { ..; } | cmd` is deliberately left unspecified (the parser attaches the
              \* pipe to the function body; see DESIGN.md, C12 notes)
-             unspec == a.t.Cmd.k = "FuncDecl" IN
+             \* `!` negates a whole pipeline, so a negated operand of | is not generated
+             IsNeg(st) == "Negated" \in DOMAIN st
+             unspec == a.t.Cmd.k = "FuncDecl" \/ (c \in {8, 9} /\ (IsNeg(a.t) \/ IsNeg(b.t))) IN
          Res(b.pos, Need2(nd, Need2(a.need, b.need)),
              L2(LAMBDA u, w : [k |-> "BinaryCmd", Op |-> op, X |-> u, Y |-> w], a, b),
              a.r \o <<"<SP>", op, "<SP>">> \o b.r,
@@ -293,7 +297,8 @@ DCmd(p, d) ==
     [] c = 11 ->   \* ( stmts )
          LET s == DStmts(p + 1, d - 1, "paren") IN
          Res(s.pos, Need2(nd, s.need), L1(LAMBDA u : [k |-> "Subshell", Stmts |-> u], s),
-             <<"(">> \o s.r \o <<")">>, s.v, s.x)
+             \* `((` would start an arithmetic command: nested subshells are written `( (`
+             (IF Head(s.r) \in {"(", "(("} THEN <<"(", " ">> ELSE <<"(">>) \o s.r \o <<")">>, s.v, s.x)
     [] c = 12 ->   \* if C; then T; fi
          LET a == DStmts(p + 1, d - 1, "kw")
              b == DStmts(a.pos, d - 1, "kw") IN
@@ -363,7 +368,8 @@ DCmd(p, d) ==
                    [k |-> "CaseItem", Op |-> ";;", Patterns |-> <<LW("*")>>, Stmts |-> <<StmtOf(CallOf(<<LW("dflt")>>))>>] >>], w, s),
              <<"case", "<SP>">> \o w.r \o <<"<SP>", "in", "<SP>", "p1", "|", "p2)", "<SP>">> \o s.r \o
              <<op, "<SP>", "(*)", "<SP>", "dflt", "<SEP>", ";;", "<SP>", "esac">>,
-             w.v \cap s.v \cap (IF o = 0 THEN All ELSE IF o = 1 THEN NoPosix ELSE BashLike \cup {"zsh"}),
+             w.v \cap s.v \cap \* ;& is in bash, mksh and zsh; ;;& is bash only (mksh and zsh spell it ;|)
+             (IF o = 0 THEN All ELSE IF o = 1 THEN NoPosix ELSE BashLike),
              w.x \cup s.x)
     [] c = 22 ->   \* case with an empty item and no terminator on the last item
          Res(p + 1, nd, Tri([k |-> "CaseClause", Word |-> W(<<PEShort("x")>>), Items |-> <<
@@ -385,7 +391,7 @@ DCmd(p, d) ==
          LET s == DStmts(p + 1, d - 1, "paren") IN
          Res(s.pos, Need2(nd, s.need),
              L1(LAMBDA u : [k |-> "FuncDecl", Parens |-> TRUE, Name |-> Lit("fn"), Body |-> StmtOf([k |-> "Subshell", Stmts |-> u])], s),
-             <<"fn", "()", "<SP>", "(">> \o s.r \o <<")">>, s.v, s.x)
+             <<"fn", "()", "<SP>">> \o (IF Head(s.r) \in {"(", "(("} THEN <<"(", " ">> ELSE <<"(">>) \o s.r \o <<")">>, s.v, s.x)
     [] c = 26 ->   \* (( arith ))
          LET a == DArith(p + 1, d - 1) IN
          Res(a.pos, Need2(nd, a.need), L1(LAMBDA u : [k |-> "ArithmCmd", X |-> u], a),
@@ -466,17 +472,19 @@ DStmt(p, d) ==
 \* Statement lists: 1 or 2 statements, the first may run in the background.
 \* ctx says what closes the list (only used by the layout: nothing in the tree).
 DStmts(p, d, ctx) ==
-  LET k  == Ch(p) % 3          \* 0: one stmt   1: two stmts   2: first in background, then a second
-      nd == Nd(p, 3)
-      a  == DStmt(p + 1, d) IN
+  \* the first statement is decoded first, then the choice of what follows it:
+  \* 0: nothing   1: a second statement   2: first in the background, then a second
+  LET a  == DStmt(p, d)
+      k  == Ch(a.pos) % 3
+      nd == Nd(a.pos, 3) IN
   IF k = 0 THEN
-       Res(a.pos, Need2(nd, a.need), L1(LAMBDA u : <<u>>, a), a.r \o <<"<SEP>">>, a.v, a.x)
-  ELSE LET b == DStmt(a.pos, 0) IN
+       Res(a.pos + 1, Need2(a.need, nd), L1(LAMBDA u : <<u>>, a), a.r \o <<"<SEP>">>, a.v, a.x)
+  ELSE LET b == DStmt(a.pos + 1, 0) IN
        IF k = 1 THEN
-         Res(b.pos, Need2(nd, Need2(a.need, b.need)), L2(LAMBDA u, w : <<u, w>>, a, b),
+         Res(b.pos, Need2(a.need, Need2(nd, b.need)), L2(LAMBDA u, w : <<u, w>>, a, b),
              a.r \o <<"<SEP>">> \o b.r \o <<"<SEP>">>, a.v \cap b.v, a.x \cup b.x)
        ELSE
-         Res(b.pos, Need2(nd, Need2(a.need, b.need)),
+         Res(b.pos, Need2(a.need, Need2(nd, b.need)),
              L2(LAMBDA u, w : <<u @@ ("Background" :> TRUE), w>>, a, b),
              a.r \o <<"<SP>", "&", "<BGSEP>">> \o b.r \o <<"<SEP>">>, a.v \cap b.v, a.x \cup b.x)
 
